@@ -186,6 +186,8 @@ def run(c, a):
     chunks = []
     for rc, out, outp in res:
         if rc != 0 or not os.path.exists(outp):
+            if c.crash_verdict("LcmMap", rc, outp):
+                continue
             raise Broken("harness shard failed rc=%s: %s" % (rc, out[-1500:]))
         lines = open(outp).read().split("\n")
         if lines and lines[-1] == "":
